@@ -34,6 +34,25 @@ HOSTILE = ['"', "'", '<', '>', '&', '"><script>alert(1)</script>', '" onerror="a
            'é"', '中<', '\x7f"', ' ', '`', '"\'<>&', 'x" y="z', '&#x22;', '&QUOT;', 'a@b"c', '<!--', ']]>', '\t"']
 
 
+def _template_payloads():
+    """Strings that are only dangerous when text is pasted into a template that is expanded again: format fields named like
+    the ones the renderers of the working tree use ('{inner}', '{target}', …, read from the source at run time), positional
+    and %-style fields, regex replacement back-references."""
+    import re as _re
+    names = set()
+    for f in list((common.REPO / 'mistletoe').glob('*.py')) + list((common.REPO / 'mistletoe' / 'contrib').glob('*.py')):
+        try:
+            names.update(_re.findall(r'\{(\w{1,12})\}', f.read_text()))
+        except OSError:
+            pass
+    out = ['{', '}', '{}', '{0}', '{{', '}}', '%s', '%d', '%(inner)s', '\\1', '\\g<0>', '$1', '${x}', '{0.__class__}']
+    out += ['{%s}' % n for n in sorted(names)]
+    return out
+
+
+HOSTILE += _template_payloads()
+
+
 def hostile(rng, k=3):
     return ''.join(rng.choice(HOSTILE + ['a', 'b', '/', ':', '.']) for _ in range(rng.randint(1, k)))
 
